@@ -111,6 +111,35 @@ def judge(ctx, impl, prog, script, nq, debug=False, stats=None):
     return ok, tracked
 
 
+def blank(t):
+    if t[0] == "jmp":
+        return ("jmp",)
+    if t[0] in ("br1", "br2"):
+        return t[:-1]
+    return t
+
+
+def structural(ctx, impl, prog, res, debug, hw, stats):
+    """direct oracles for the structural clauses on the real transpiler's output: every branch /
+    jump of the serialised NV subroutine points at an instruction (a target just past the end got
+    the no-op), and the original non-gate instructions appear in their order"""
+    if res[0] != "ok":
+        return
+    out = [t for t in res[1] if t[0] != "debug"]
+    stats["structural"] = stats.get("structural", 0) + 1
+    for t in out:
+        if t[0] in ("jmp", "br1", "br2") and not (0 <= t[-1] < len(out)):
+            ctx.violation(f"transpiled subroutine has a branch to line {t[-1]} but only {len(out)} instructions "
+                          "(a target just past the end must reach the appended no-op)",
+                          replay_record(impl, prog, [], 4, debug, "branch target outside the transpiled subroutine"), key=None)
+            return
+    want = [blank(t) for t in prog if t[0] not in ("g1", "g2", "rot", "debug")]
+    have = iter(blank(t) for t in out)
+    if not all(any(w == h for h in have) for w in want):
+        ctx.violation("non-gate instructions of the original are not a subsequence (in order) of the transpiled subroutine",
+                      replay_record(impl, prog, [], 4, debug, "non-gate order"), key=None)
+
+
 # ------------------------------------------------------------------ streams
 def tie_variants(rng, impl, base_opts):
     """programs for the instruction-list tie: the SDK-shaped ones plus shapes the transpiler
@@ -182,14 +211,20 @@ def run(ctx):
         impl = nv_impl.NvImpl(ctx.repo)
     except Exception as e:  # noqa
         ctx.gen_obligation("implementation importable", False, repr(e))
-    if not ok or impl is None:
+    if impl is None:
         return ctx.finish()
-    ctx.props("C08")
+    table_ok = ok
+    if table_ok:
+        ctx.props("C08")
+        import nv_blocks
 
-    import nv_blocks
-
-    tab = nv_blocks.tables(ctx.repo)
-    bad = nv_impl.unsound_rows(tab)
+        tab = nv_blocks.tables(ctx.repo)
+        bad = nv_impl.unsound_rows(tab)
+    else:
+        # the table translator no longer understands the transpiler: the Coq side cannot be
+        # evaluated; the oracle still runs (search for a concrete failing input), on the gates
+        # whose blocks were sound when this check was written
+        bad = ["s", "t"]
     bad1 = [b for b in bad if isinstance(b, str)]
     bad2 = [b for b in bad if not isinstance(b, str)]
     if bad:
@@ -227,11 +262,16 @@ def run(ctx):
 
     def add_tie(prog, meta, debug, hw):
         res = impl.transpile(prog, debug=debug, hw=hw)
+        structural(ctx, impl, prog, res, debug, hw, stats)
+        if not table_ok:
+            return res
         tcases.append((debug, hw, prog, nv_impl.enc_tresult(res)))
         tmeta.append(dict(prog=prog, debug=debug, hw=hw, got=res[:2]))
         return res
 
     def add_run(prog, script, nq, nv):
+        if not table_ok:
+            return
         try:
             res = impl.execute(prog, script, nq, nv=nv)
         except Exception:
@@ -378,6 +418,7 @@ def replay(ctx, path):
     print(impl.text(prog))
     ok_, what, tracked = oracle(impl, prog, rec["script"], rec["nq"], rec.get("debug", False))
     print("replay:", ok_, what, "tracked_ok =", tracked)
+    structural(ctx, impl, prog, impl.transpile(prog, debug=rec.get("debug", False)), rec.get("debug", False), False, {})
     if ok_ is False:
         ctx.violation("NV transpilation changes behaviour: " + what, rec, key=FINDING_TRACK if not tracked else None)
     ctx.finish()
